@@ -169,3 +169,53 @@ Proof.
   rewrite Hs, skipn_app, skipn_all, Nat.sub_diag. cbn.
   rewrite firstn_app, <- C2, firstn_all, Nat.sub_diag. cbn. rewrite app_nil_r. reflexivity.
 Qed.
+
+(* ---------- read_until: the result is determined by the stream alone ---------- *)
+Lemma prefixb_app_true : forall d s t, prefixb d s = true -> prefixb d (s ++ t) = true.
+Proof.
+  induction d as [|a d IH]; intros s t H; cbn in *; auto.
+  destruct s as [|b s]; [discriminate|]. cbn. apply andb_true_iff in H as [H1 H2].
+  rewrite H1. cbn. apply IH, H2.
+Qed.
+
+Lemma prefixb_app_false : forall d s t, prefixb d s = false -> length d <= length s -> prefixb d (s ++ t) = false.
+Proof.
+  induction d as [|a d IH]; intros s t H Hl; cbn in *; [discriminate|].
+  destruct s as [|b s]; [cbn in Hl; lia|]. cbn in *.
+  destruct (N.eqb a b); cbn in *; auto. apply IH; [exact H|lia].
+Qed.
+
+Lemma find_app_l : forall d s t loc, find d s = Some loc -> find d (s ++ t) = Some loc.
+Proof.
+  intros d s; induction s as [|b s IH]; intros t loc H.
+  - cbn in H. destruct (prefixb d []) eqn:E; [|discriminate]. inversion H; subst.
+    destruct d; [|discriminate]. destruct t; reflexivity.
+  - cbn [find] in H. destruct (prefixb d (b :: s)) eqn:E.
+    + inversion H; subst. cbn [app find]. change (b :: s ++ t) with ((b :: s) ++ t).
+      rewrite (prefixb_app_true _ _ t E). reflexivity.
+    + destruct (find d s) as [k|] eqn:F; cbn in H; [|discriminate]. inversion H; subst.
+      pose proof (find_bound _ _ _ F) as Hb.
+      cbn [app find]. change (b :: s ++ t) with ((b :: s) ++ t).
+      rewrite (prefixb_app_false _ _ t E) by (cbn; lia).
+      rewrite (IH t k eq_refl). reflexivity.
+Qed.
+
+Theorem until_result_is_determined : forall c m mw p i dl mx f l1 d l2, run_ok (init c m mw) p ->
+  nth_error p i = Some (ORead (RUntil dl mx)) ->
+  nth_error (rets (init c m mw) p) i = Some (RetFut f) ->
+  log (run (init c m mw) p) = l1 ++ EvDone f (OData d) :: l2 ->
+  exists loc, find dl (skipn (length (consumed l1)) (stream_of p)) = Some loc /\
+              d = firstn (loc + length dl) (skipn (length (consumed l1)) (stream_of p)).
+Proof.
+  intros c m mw p i dl mx f l1 d l2 Hok Hp Hr Hl.
+  assert (Hin : In (EvDone f (OData d)) (log (run (init c m mw) p)))
+    by (rewrite Hl; apply in_or_app; right; left; reflexivity).
+  pose proof (read_contracts c m mw p i _ f _ Hok Hp Hr Hin) as C. cbn in C.
+  destruct C as (Cf & Cl & _).
+  destruct (result_slices c m mw p Hok l1 f (OData d) l2 Hl) as [rest Hs]. cbn in Hs.
+  rewrite Hs, skipn_app, skipn_all, Nat.sub_diag. cbn [skipn app].
+  exists (length d - length dl). split.
+  - apply find_app_l. exact Cf.
+  - replace (length d - length dl + length dl) with (length d) by lia.
+    rewrite firstn_app, firstn_all, Nat.sub_diag. cbn. rewrite app_nil_r. reflexivity.
+Qed.
